@@ -154,6 +154,63 @@ func (p *Pilot) sharedEditWithReader() (edit sdk.Msg, reader sdk.Msg, label stri
 	}
 }
 
+// AcceptedRedecimal: the token-registry administrator SUCCESSFULLY re-registers the denom of an existing pool
+// with other decimals (permissions kept).  Block hooks price every pool from the registered decimals, so every
+// node must pick the new value up from the next block on; the next block is a restart point.
+func (p *Pilot) AcceptedRedecimal(denom string) {
+	ps := p.pools()
+	if denom == "" {
+		if len(ps) == 0 {
+			return
+		}
+		denom = ps[p.R.Intn(len(ps))].ExternalAsset.Symbol
+	}
+	ctx := p.C.Ctx()
+	reg := p.C.App.TokenRegistryKeeper.GetRegistry(ctx)
+	cur := int64(-1)
+	if e, err := p.C.App.TokenRegistryKeeper.GetEntry(reg, denom); err == nil {
+		cur = e.Decimals
+	}
+	choices := []int64{6, 8, 10, 12, 18}
+	d := choices[p.R.Intn(len(choices))]
+	for d == cur {
+		d = choices[p.R.Intn(len(choices))]
+	}
+	m := &trtypes.MsgRegister{From: p.W.Admin.Addr.String(), Entry: &trtypes.RegistryEntry{Denom: denom, BaseDenom: denom, Decimals: d,
+		Permissions: []trtypes.Permission{trtypes.Permission_CLP, trtypes.Permission_IBCEXPORT, trtypes.Permission_IBCIMPORT}}}
+	p.Tx("registry.redecimal.accepted", p.W.Admin, m)
+	p.restartNext = true
+}
+
+// AcceptedEdit: other accepted administrator edits of objects that block hooks and later messages read, each
+// followed by a restart point: swap fee table, rewards policy, liquidity-protection policy, an oracle whitelist
+// member removed and re-added in one transaction.
+func (p *Pilot) AcceptedEdit() {
+	adm := p.W.Admin
+	a := adm.Addr.String()
+	switch p.R.Intn(4) {
+	case 0:
+		tok := tokens[p.R.Intn(len(tokens))]
+		m := clptypes.MsgUpdateSwapFeeParamsRequest{Signer: a, DefaultSwapFeeRate: sdk.NewDecWithPrec(int64(1+p.R.Intn(9)), 3),
+			TokenParams: []*clptypes.SwapFeeTokenParams{{Asset: tok.Denom, SwapFeeRate: sdk.NewDecWithPrec(int64(1+p.R.Intn(20)), 3)}}}
+		p.Tx("clp.admin.swapfee.accepted", adm, &m)
+	case 1:
+		m := clptypes.MsgUpdateRewardsParamsRequest{Signer: a, LiquidityRemovalLockPeriod: uint64(p.R.Intn(3)), LiquidityRemovalCancelPeriod: uint64(5 + p.R.Intn(10)),
+			RewardsLockPeriod: uint64(p.R.Intn(2)), RewardsEpochIdentifier: "hour", RewardsDistribute: p.R.Bool()}
+		p.Tx("clp.admin.rewardsparams.accepted", adm, &m)
+	case 2:
+		m := clptypes.MsgUpdateLiquidityProtectionParams{Signer: a, MaxRowanLiquidityThreshold: sdk.NewUintFromBigInt(new(big.Int).Mul(big.NewInt(int64(50000+p.R.Intn(100000))), pow10(18))),
+			MaxRowanLiquidityThresholdAsset: "rowan", EpochLength: uint64(5 + p.R.Intn(10)), IsActive: true}
+		p.Tx("clp.admin.liqprot.accepted", adm, &m)
+	default:
+		val := sdk.ValAddress(p.W.Vals[p.R.Intn(len(p.W.Vals))].Addr)
+		rm := ethbridgetypes.NewMsgUpdateWhiteListValidator(adm.Addr, val, "remove")
+		ad := ethbridgetypes.NewMsgUpdateWhiteListValidator(adm.Addr, val, "add")
+		p.Tx("bridge.whitelist.remove+add.accepted", adm, &rm, &ad)
+	}
+	p.restartNext = true
+}
+
 // EditReadFail: [edit X, a message that reads X (succeeds, or is refused after reading), a send of more than the
 // sender owns] — rejected as a whole.  Whatever the reader computed or cached from the edited X must be gone
 // with the transaction; the block after it becomes a restart point of the `restarted` executions, so that a node
